@@ -208,15 +208,36 @@ class Array(Base):
         ratio = (1.0 * self.unit).to(new_unit) / (1.0 * new_unit)
         return self.__class__(values=self._array * ratio.magnitude, unit=new_unit)
 
-    def _maybe_array(self, arg):
-        if isinstance(arg, self.__class__):
-            return arg._array
+    def _maybe_array(self, arg, unit=None):
+        """
+        Strip the unit from an operand. If ``unit`` is given, operands that carry a
+        unit are first converted to it (boolean masks carry no unit).
+        """
         if isinstance(arg, Quantity):
-            return arg.magnitude
+            arg = self.__class__(arg)
+        if isinstance(arg, self.__class__):
+            if (unit is not None) and (arg.dtype != bool):
+                arg = arg.to(unit)
+            return arg._array
         return arg
 
-    def _extract_arrays_from_args(self, args):
-        return tuple(self._maybe_array(a) for a in args)
+    def _extract_arrays_from_args(self, args, unit=None):
+        return tuple(self._maybe_array(a, unit=unit) for a in args)
+
+    def _common_unit(self, args):
+        """
+        The unit in which the operands of a unit-preserving function are combined:
+        the unit of the first operand that holds numbers (a boolean mask, such as
+        the condition of ``np.where``, has no unit to contribute).
+        """
+        for arg in args:
+            if isinstance(arg, (tuple, list)):
+                return self._common_unit(arg)
+            if isinstance(arg, self.__class__) and (arg.dtype != bool):
+                return arg.unit
+            if isinstance(arg, Quantity):
+                return arg.units
+        return self.unit
 
     def _extract_arrays_from_kwargs(self, kwargs):
         return {
@@ -239,12 +260,18 @@ class Array(Base):
         return tuple(self._maybe_unit(a) for a in args)
 
     def _wrap_numpy(self, func, *args, **kwargs):
+        # Functions that do not transform the unit (sum, concatenate, maximum, ...)
+        # combine their operands in one common unit: operands in another unit are
+        # converted, and incompatible units raise.
+        common_unit = None
+        if func.__name__ not in APPLY_OP_TO_UNIT:
+            common_unit = self._common_unit(args)
         if isinstance(args[0], (tuple, list)):
             array_args = (
-                self._extract_arrays_from_args(args[0]),
-            ) + self._extract_arrays_from_args(args[1:])
+                self._extract_arrays_from_args(args[0], unit=common_unit),
+            ) + self._extract_arrays_from_args(args[1:], unit=common_unit)
         else:
-            array_args = self._extract_arrays_from_args(args)
+            array_args = self._extract_arrays_from_args(args, unit=common_unit)
         result = func(*array_args, **self._extract_arrays_from_kwargs(kwargs))
 
         unit = None
@@ -255,7 +282,7 @@ class Array(Base):
                     **{key: a for key, a in kwargs.items() if key != "out"},
                 ).units
             else:
-                unit = self.unit
+                unit = common_unit
 
         if "out" in kwargs:
             kwargs["out"][0].unit = unit
